@@ -22,6 +22,8 @@ on the former witnesses. Open: DateExampleTrim (`dateTrim_witness`).
 import KinModel.Lemmas.C03Deep
 import KinModel.Lemmas.C03Normal
 import KinModel.Gen.Descriptors
+import KinModel.MarshalRefBlock
+import KinModel.Gen.C03RefWrites
 namespace KinModel.Marshal
 open KinModel.Gen
 
@@ -495,6 +497,72 @@ example :
                              ("/b", .obj [("parameters", .arr [.obj [("$ref", .str "#/components/parameters/P")]]),
                                           ("get", .obj [("schema", .obj [("$ref", .str "#/components/schemas/A")])])])])] => true
      | _ => false) = true := by decide
+
+/-! ## the Loader route: the loader keeps every `Ref` text (table C03RefWrites, regenerated from openapi3/loader.go) -/
+
+/-- the tree model's loader keeps the reference text of every node it touches … -/
+theorem resolveG_keeps_refText (ρ : String → GoV) (σ : String → (List (String × JV) → JV) × GoV) (g : GoV) :
+    (resolveG ρ σ g).refText = g.refText := by
+  cases g with
+  | wrapper ref hv value => by_cases h : (ref != "") = true <;> simp [resolveG, GoV.refText, h]
+  | struct ref asm fields => by_cases h : (ref != "") = true <;> simp [resolveG, GoV.refText, h]
+  | _ => rfl
+
+/-- … and this is the code's reference block, statement by statement: the rows of one resolver -/
+def topsOf (fn : String) : List RTop :=
+  (c03RefTops.filter (·.fn == fn)).map fun r => ⟨r.overwrite, r.retAfter, r.hasReturn, r.restore, r.litCopy⟩
+
+/-- the translator read every statement of loader.go that can change a `Ref` text -/
+theorem refwrites_no_unrecognised : ∀ w ∈ c03RefWrites, w.kind ≠ "unrecognised" := by decide
+
+/-- every such statement (assignment to a `.Ref`, assignment through a pointer) is the restore statement of the
+    block of its own target or an overwrite of the block's owner inside that block: no resolver writes the `Ref` of
+    a wrapper, of a copy, of a target (seeded classes C03-r3m3 `p.Ref = ref` / `resolved.Ref = ref`, C03-r4m2
+    `component.Ref = resolved.Ref`) -/
+theorem refwrites_all_accounted : ∀ w ∈ c03RefWrites, w.accounted = true := by decide
+
+/-- all ten resolvers have their reference block, on their own node -/
+theorem ref_blocks :
+    c03RefBlocks.map (fun b => (b.1, b.2.1)) =
+      [("resolveHeaderRef", "component"), ("resolveParameterRef", "component"), ("resolveRequestBodyRef", "component"),
+       ("resolveResponseRef", "component"), ("resolveSchemaRef", "component"), ("resolveSecuritySchemeRef", "component"),
+       ("resolveExampleRef", "component"), ("resolveCallbackRef", "component"), ("resolveLinkRef", "component"),
+       ("resolvePathItemRef", "pathItem")] := by decide
+
+/-- the statement rows of every block are complete and in source order -/
+theorem ref_tops_complete :
+    ∀ b ∈ c03RefBlocks, (c03RefTops.filter (·.fn == b.1)).map (·.idx) = List.range b.2.2.2 ∧
+      (c03RefTops.filter (·.fn == b.1)).all (·.owner == b.2.1) = true := by decide
+
+/-- every block passes the check: no return between an overwrite and the restore, nothing overwritten at the end -/
+theorem ref_blocks_ok : ∀ b ∈ c03RefBlocks, okFrom false (topsOf b.1) = true := by decide
+
+/-- the nine wrapper blocks neither overwrite nor restore nor copy -/
+theorem wrapper_blocks_inert :
+    ∀ b ∈ c03RefBlocks, b.1 ≠ "resolvePathItemRef" → (topsOf b.1).all RTop.inert = true := by decide
+
+/-- The reference block of every resolver of this repository leaves the node's `Ref` as it was written in the
+    document, for every control flow through the block (any branch, any early return, any `Ref` carried by the
+    copied target `p` / `resolved`), given that the value registered under the block's key carries the block's text. -/
+theorem loader_block_keeps_ref (b : String × String × String × Nat) (hb : b ∈ c03RefBlocks) (ref : String)
+    (cs : List RChoice) : runTops ref ref (topsOf b.1) cs ref = ref :=
+  refBlock_keeps_ref ref _ cs (ref_blocks_ok b hb)
+
+/-- … and for the nine wrapper kinds without that proviso and from any state -/
+theorem loader_wrapper_keeps_ref (b : String × String × String × Nat) (hb : b ∈ c03RefBlocks)
+    (hne : b.1 ≠ "resolvePathItemRef") (ref regRef cur : String) (cs : List RChoice) :
+    runTops ref regRef (topsOf b.1) cs cur = cur :=
+  runTops_inert ref regRef _ (wrapper_blocks_inert b hb hne) cs cur
+
+/-- non-vacuity: the path item's block does replace the node and does restore the text; and the check is not
+    trivially true — the block with the restore folded into one branch (the shape of C03-r3m3) fails it and has a run
+    that ends with the target's text -/
+example :
+    (topsOf "resolvePathItemRef").any (·.overwrite) = true ∧ (topsOf "resolvePathItemRef").any (·.restore) = true ∧
+    (topsOf "resolvePathItemRef").any (·.litCopy) = true ∧
+    okFrom false [⟨true, false, true, false, false⟩, ⟨false, false, false, false, false⟩] = false ∧
+    runTops "#/paths/~1b" "#/paths/~1b" [⟨true, false, true, false, false⟩, ⟨false, false, false, false, false⟩]
+      [.write "#/paths/~1c"] "#/paths/~1b" = "#/paths/~1c" := by decide
 
 /-- the kinds that carry their own `$ref` (no wrapper) and are reached by the loader all have the early return -/
 theorem refEarly_kinds :
